@@ -19,7 +19,7 @@ for f in $D/*.go; do
   echo "  $b -> $dest"
   mkdir -p $WT/$(dirname $dest); cp $f $WT/$dest
 done
-CMD=$(grep -o 'go test [^`]*' $D/demo_path.txt | head -1 | sed 's/[`)]*$//')
+CMD=$(grep -o 'go test [^`]*' $D/demo_path.txt | head -1 | tr -d "'" | sed 's/[`)]*$//')
 [ -z "$CMD" ] && CMD=$(grep -o 'go run [^`]*' $D/demo_path.txt | head -1)
 echo "---- demo cmd: $CMD"
 echo "---- 1. demo on unchanged tree (expect PASS)"
